@@ -5,38 +5,59 @@ from .. import common as C
 
 ID = "C15"
 SRC_FACTS = ["yamledit_set_fields", "yamledit_delete_empty", "yamledit_delete_missing", "yamledit_key_comment",
-             "envrm_imports"]
+             "envrm_imports", "envrm_empty_guard", "envrm_values_root"]
 COQ_SAMPLE = 40
 BATCH = 100
-RULE = ("regression corpus (the six repaired defects in both modes, TestYAMLEdit-like edits, same-text replacements); "
+RULE = ("regression corpus (the eight repaired defects in both modes, TestYAMLEdit-like edits, same-text replacements, the "
+        "keys `values` / `imports` themselves carrying a line comment while the collection below them is emptied, "
+        "replaced or edited, comment blocks of the document node); "
         "same-text family: 11 scalar texts (int, float, bool, null, ~, empty, date, string) x all ordered pairs of distinct "
         "presentations (plain, double/single quoted, !!str) as mapping value and sequence element, and all pairs over "
         "the spellings of null/empty, in both modes; exhaustive family: 7 small "
         "definitions x every single set/rm over 14 paths x 6 values, in both modes, plus all ordered pairs over a "
-        "reduced alphabet (thorough) or a sample of them (quick); random stream: generated definitions (nested "
-        "block/flow mappings and sequences, quoted/literal/plain scalars, quoted keys, head and line comments) with "
+        "reduced alphabet (thorough) or a sample of them (quick); exhaustive family `comments`: one skeleton definition "
+        "(imports, nested mappings, a sequence with a mapping element) x every node position (17: the document, every "
+        "key incl. `imports` and `values`, every sequence element) x head / line / foot comment, plus one comment of a "
+        "kind at every position, x 35 command sequences (set / rm of the commented node, its parent, children and "
+        "siblings, and the sequences that empty a collection level by level up to `values` and `imports` themselves), "
+        "CLI mode all, api mode all (thorough); quick: all for line comments and for the all-positions definitions, every "
+        "second sequence for a single head / foot comment, a third of them also in api mode; exhaustive family `sizes`: mappings and sequences of "
+        "1, 2, 3, 8, 64, 1000 entries x set / rm of the first, middle, last, absent, appended entry and of the whole "
+        "collection, scalars of 0, 1, 80, 4096, 70000 bytes (plain and double-quoted) present in the definition and as "
+        "the value set (also with --secret), in both modes; 7 definitions that are not YAML (the handler must say so); "
+        "random stream: generated definitions (nested "
+        "block/flow mappings and sequences, quoted/literal/plain scalars, quoted keys, head and line comments, also on "
+        "the keys `values` and `imports`) with "
         "sequences of 1-6 set/rm over paths drawn from the definition's own paths, their extensions (new keys, "
         "append index, index gaps, negative indices, through scalars, wrong accessor kind, missing intermediates, "
         "empty path) and paths used earlier in the sequence; values: ints, floats, bools, nulls, plain/quoted/"
         "multi-line strings, flow and block collections, explicit tags, anchors, unparsable texts; malformed path "
         "texts; mode api = direct YAMLSyntax.Set/Delete on the document (in-memory across steps or re-parsed), "
-        "mode cli = real `esc env set/rm/get` commands against a fake backend (with --secret on a third of the "
-        "sets).  non-trivial = the input definition is well-formed and round-trips and at least one step changed "
-        "the stored definition; distinct by case content")
+        "mode cli = real `esc env set/rm` commands against a fake backend (with --secret on a third of the "
+        "sets), each successful one followed by the real `esc env get --definition <path>` whose output is part of the "
+        "specification oracle.  non-trivial = the input definition is well-formed and round-trips and at least one step "
+        "changed the stored definition; distinct by case content")
 ASSUMPTIONS = [
     "the stored definition is compared after yaml.v3 has written and re-read it: scalars by effective tag, value "
-    "and comments, collections by kind, comments and children (a collection's own tag and flow/block style are "
+    "and line comment, collections by kind, line comment and children (a collection's own tag and flow/block style are "
     "presentation)",
-    "definitions whose initial text yaml.v3 does not write back to an equal tree (comment re-attachment) or that "
-    "are not well-formed (duplicate keys, non-scalar keys, aliases as containers) are outside the property; they "
-    "are still compared against the model",
-    "comment lines followed by a blank line (yaml.v3 foot comments) are not generated: yaml.v3 attributes them to "
-    "the previous or to the next key depending on the position of the entry in its mapping, so the same text is "
-    "read back differently after an unrelated edit (the text itself does not move)",
+    "head and foot comments are compared at the level of the text: the sequence of keys, scalars and non-empty comment "
+    "lines of the definition in document order (Corr.C15.tokens).  yaml.v3 decides when it READS a text which node a "
+    "free-standing comment belongs to (after the last entry of a nested collection: the innermost last key; after an "
+    "empty `{}`: head comment of the next key; the blank line after a head comment is not written back), so the same "
+    "text is read back with the comment on another node after an unrelated edit; the position of the comment lines "
+    "among the keys and scalars does not depend on that choice",
+    "definitions whose initial text yaml.v3 does not write back to an equal tree and token sequence or that "
+    "are not well-formed (duplicate keys, non-scalar keys, aliases as containers) are outside the property "
+    "(counted: input_not_roundtrip_stable); every command of the CLI and of the re-parsing api mode is compared with "
+    "the model's step from the definition as it was stored and read back before that command",
     "a failed Set/Delete may leave created intermediates in the in-memory tree; the CLI discards the tree, and the "
     "api mode restarts from the stored text after a failed step",
     "the value-looks-like-a-secret heuristic (zxcvbn) is bypassed with --plaintext; the fake backend stores any "
     "text (the real service validates the definition and may refuse it, e.g. fn::secret of a non-string)",
+    "`env get` is run only when the stored definition loads without diagnostics (it needs the checked environment); "
+    "the --secret observation needs a definition that eval.EncryptSecrets accepts and that evaluates; both skips are "
+    "counted per reason in the distribution, and in the dedicated families (must_open) a skip is a failure",
 ]
 TRUSTED = ["yaml.v3 scanner/emitter and resource.ParsePropertyPath are not modelled: their results (parsed "
            "definition, parsed value, parsed path) are inputs of the model; the generator's intended path is "
@@ -220,10 +241,17 @@ def gen_doc(rng, mode):
     if r == 2:
         return ("map", [("values", "", ("s", rng.choice(["", "null", "5"]), ""))], False)
     ents = []
+
+    def key_meta():
+        # head and line comment of the keys `imports` / `values` themselves (the line comment is written only in front
+        # of a non-empty block collection: "values: # comment")
+        hc = rng.choice(COMMENTS) if rng.chance(1, 6) else ""
+        klc = rng.choice(COMMENTS) if rng.chance(1, 4) else ""
+        return (hc, klc, "") if klc else hc
     if rng.chance(1, 3):
-        ents.append(("imports", "", ("seq", [("s", rng.choice(["base", "proj/e", "org/x@2"]), "") for _ in
-                                               range(rng.below(3))], False)))
-    ents.append(("values", rng.choice(COMMENTS) if rng.chance(1, 8) else "", body))
+        ents.append(("imports", key_meta(), ("seq", [("s", rng.choice(["base", "proj/e", "org/x@2"]), "") for _ in
+                                                       range(rng.below(3))], False)))
+    ents.append(("values", key_meta(), body))
     if rng.chance(1, 8):
         ents.append(("other", "", ("s", "1", "")))
     return ("map", ents, False)
@@ -424,8 +452,9 @@ def gen(rng, tier):
             cases.append(mk(mode, wrap(mode, d4), [S(["aws"], "5"), S(["aws"], "{a: 1}"), S(["l"], "[]")], rp))
             cases.append(mk(mode, wrap(mode, d5), [S(["a"], '""'), S(["a"], "x"), S(["a"], "!!str 7")], rp))
     cases.append(mk("cli", wrap("cli", d3), [S(["pw"], "newpw", secret=True), S(["user"], "12", secret=True)]))
-    for t in SECRET_TEXTS:
-        cases.append(mk("cli", wrap("cli", d3), [S(["pw"], t, secret=True), S(["fresh"], t, secret=True)]))
+    for t in SECRET_TEXTS + SECRET_NONSTR:
+        cases.append(dict(mk("cli", wrap("cli", d3), [S(["pw"], t, secret=True), S(["fresh"], t, secret=True),
+                                                       S(["l", 0], t, secret=True)]), must_open=True))
     cases.append(mk("cli", ("map", [("imports", "", ("seq", [("s", "base", "")], False)),
                                     ("values", "", ("map", [("a", "", ("s", "1", ""))], False))], False),
                     [S(["imports", 1], "more"), R(["imports", 0]), R(["imports", 0]), R(["imports", 0]), R(["imports"])]))
@@ -482,6 +511,10 @@ def gen(rng, tier):
             ps = pairs if thorough else [rng.choice(pairs) for _ in range(60)]
             for x, y in ps:
                 cases.append(mk(mode, wrap(mode, d), [dict(x), dict(y)], reparse=rng.chance(1, 2)))
+    cases.extend(values_key_family())
+    cases.extend(comment_family(rng, thorough))
+    cases.extend(size_family(rng, thorough))
+    cases.extend(malformed_doc_family())
     # ---- random stream ----------------------------------------------------------------------------------
     n = 40000 if thorough else 1000
     for _ in range(n):
@@ -490,6 +523,246 @@ def gen(rng, tier):
         ops = gen_ops(rng, ast, mode, 1 + rng.below(6))
         cases.append(mk(mode, ast, ops, reparse=rng.chance(2, 3)))
     return cases
+
+
+
+# ---------------------------------------------------------------------------------------------------------
+# exhaustive family "comments": one skeleton definition; for every node position (every key and every sequence
+# element, the keys `imports` and `values` included) and every kind of comment (head, line, foot) the definition with
+# that one comment, plus the definition with a comment at every position of one kind; on each of them single
+# commands on the commented node, its parent, its children and siblings, and the sequences that empty a collection
+# (its key's line comment then has nowhere to stay).  Both modes: the api mode runs the same paths from the root.
+#   skeleton node: ("map", [(id, key, child)]) | ("seq", [(id, child)]) | ("s", text)
+SKEL = ("map", [
+    ("I", "imports", ("seq", [("I0", ("s", "base")), ("I1", ("s", "more"))])),
+    ("V", "values", ("map", [
+        ("A", "a", ("map", [
+            ("B", "b", ("map", [("C", "c", ("s", "1")), ("D", "d", ("s", "two"))])),
+            ("E", "e", ("s", "x"))])),
+        ("L", "l", ("seq", [("L0", ("s", "p")), ("L1", ("map", [("Q", "q", ("s", "1")), ("R", "r", ("s", "2"))]))])),
+        ("Z", "z", ("s", "last"))])),
+    ("O", "other", ("s", "1"))])
+SKEL_IDS = ["DOC", "I", "I0", "I1", "V", "A", "B", "C", "D", "E", "L", "L0", "L1", "Q", "R", "Z", "O"]
+
+
+def skel_lines(n, ind, cm):
+    pad = " " * ind
+    out = []
+    if n[0] == "map":
+        for i, key, ch in n[1]:
+            hc, lc, fc = cm.get(i, ("", "", ""))
+            if hc:
+                out.append(pad + "# " + hc)
+            tail = " # " + lc if lc else ""
+            if ch[0] == "s":
+                out.append(pad + key + ": " + ch[1] + tail)
+            else:
+                out.append(pad + key + ":" + tail)
+                out.extend(skel_lines(ch, ind + 2, cm))
+            if fc:
+                out.append(pad + "# " + fc)
+                out.append("")
+        return out
+    for i, ch in n[1]:
+        hc, lc, fc = cm.get(i, ("", "", ""))
+        if hc:
+            out.append(pad + "# " + hc)
+        if ch[0] == "s":
+            out.append(pad + "- " + ch[1] + (" # " + lc if lc else ""))
+        else:
+            b = skel_lines(ch, ind + 2, cm)
+            out.append(pad + "- " + b[0][ind + 2:])
+            out.extend(b[1:])
+        if fc:
+            out.append(pad + "# " + fc)
+            out.append("")
+    return out
+
+
+def skel_text(cm):
+    """position DOC: the comment block at the top of the text (head: a blank line separates it from the first key, so
+    that yaml.v3 attaches it to the document) / at its end (foot)"""
+    t = "\n".join(skel_lines(SKEL, 0, cm)) + "\n"
+    hc, _, fc = cm.get("DOC", ("", "", ""))
+    if hc:
+        t = "# " + hc + "\n\n" + t
+    if fc:
+        t = t + "\n# " + fc + "\n"
+    return t
+
+
+def _S(p, v, **kw):
+    return dict({"op": "set", "path": path_text(p), "ipath": p, "value": v}, **kw)
+
+
+def _R(p):
+    return {"op": "rm", "path": path_text(p), "ipath": p}
+
+
+# command sequences, as paths of the CLI (below `values`, or `imports...`)
+SKEL_OPS = [
+    [_S(["a", "b", "c"], "9")], [_S(["a", "b", "c"], "{k: v}")], [_S(["a", "b"], "{}")], [_S(["a", "b"], "5")],
+    [_S(["a", "b", "n"], "new")], [_S(["a"], "[1, 2]")], [_S(["a", "e"], "[]")], [_S(["n1", "n2"], "v")],
+    [_R(["a", "b", "c"])], [_R(["a", "b", "d"])], [_R(["a", "b"])], [_R(["a", "e"])], [_R(["a"])], [_R(["a", "zz"])],
+    [_S(["l", 0], "x")], [_S(["l", 2], "y")], [_S(["l", 1, "q"], "7")], [_R(["l", 0])], [_R(["l", 1])],
+    [_R(["l", 1, "q"])], [_R(["l"])], [_R(["z"])], [_S(["z"], "{k: [1]}")], [_S(["z"], '"s"')],
+    # emptying a collection step by step: b, l, the element l[1], a, and `values` / `imports` themselves
+    [_R(["a", "b", "c"]), _R(["a", "b", "d"]), _S(["a", "b", "k"], "v")],
+    [_R(["l", 0]), _R(["l", 0]), _S(["l", 0], "again")],
+    [_R(["l", 1, "q"]), _R(["l", 1, "r"])],
+    [_R(["a", "b"]), _R(["a", "e"])],
+    [_R(["a"]), _R(["l"]), _R(["z"]), _S(["back"], "1")],
+    [_R(["z"]), _R(["l"]), _R(["a"])],
+    [_S(["imports", 0], "other")], [_S(["imports", 2], "third")], [_R(["imports", 1])],
+    [_R(["imports", 0]), _R(["imports", 0]), _S(["imports", 0], "again")],
+    [_R(["imports"])],
+]
+
+
+def api_ops(ops):
+    """the same commands as direct Set / Delete calls from the root of the definition"""
+    out = []
+    for o in ops:
+        p = o["ipath"]
+        fp = p if p and p[0] == "imports" else ["values"] + p
+        o2 = dict(o)
+        o2.pop("secret", None)      # --secret is an option of the command
+        o2["ipath"] = fp
+        o2["path"] = path_text(fp)
+        out.append(o2)
+    return out
+
+
+def comment_family(rng, thorough):
+    docs = [({}, "none")]
+    for kind, slot in (("head", 0), ("line", 1), ("foot", 2)):
+        for i in SKEL_IDS:
+            if i == "DOC" and kind == "line":
+                continue
+            cm = {i: tuple("c-" + i if j == slot else "" for j in range(3))}
+            docs.append((cm, "%s:%s" % (kind, i)))
+        docs.append(({i: tuple(kind + " " + i if j == slot else "" for j in range(3)) for i in SKEL_IDS}, kind + ":all"))
+    docs.append(({i: ("h " + i, "l " + i, "") for i in SKEL_IDS}, "head+line:all"))
+    cases = []
+    for di, (cm, label) in enumerate(docs):
+        text = skel_text(cm)
+        for k, ops in enumerate(SKEL_OPS):
+            for mode in ("cli", "api"):
+                if not thorough and mode == "api" and (k + len(label)) % 3 != 0:
+                    continue        # quick: every third command sequence also as direct calls
+                if not thorough and not label.startswith("line") and ":all" not in label and (k + di) % 2 != 0:
+                    continue        # quick: for a single head / foot comment every second command sequence
+                c = {"mode": mode, "reparse": (k % 2 == 0), "ast": None, "doc": text, "family": "comments:" + label,
+                     "ops": [dict(o) for o in (ops if mode == "cli" else api_ops(ops))]}
+                cases.append(c)
+    return cases
+
+
+def values_key_family():
+    """regression corpus of the seventh repair: the keys `values` / `imports` themselves carry a line comment and
+    the collection below them is emptied, replaced, or edited"""
+    cases = []
+    docs = ["values: # c\n  a: 1\n", "values: # c\n  - 1\n", "# head\nvalues: # c\n  a: 1\nother: 1\n",
+            "# licence\n# two lines\n\nvalues: # c\n  a: 1\n\n# trailer\n",
+            "imports: # c\n  - base\nvalues: # v\n  a:\n    b: 1\n", "imports: # c\n  - base\nvalues: {}\n",
+            "values: # c\n  a: 1\n  b: 2\n"]
+    seqs = [[_R(["a"])], [_R([0])], [_R(["a"]), _S(["n"], "1")], [_S(["a"], "2")], [_S(["b"], "{}")], [_R(["a", "b"])],
+            [_R(["a", "b"]), _R(["a"])], [_R(["imports", 0])], [_R(["imports", 0]), _S(["imports", 0], "x")],
+            [_S(["a"], "x", secret=True), _R(["a"])], [_R(["b"]), _R(["a"]), _S(["c", 0], "v")], [_R([])], [_R(["zz"])]]
+    for d in docs:
+        for ops in seqs:
+            cases.append({"mode": "cli", "reparse": True, "ast": None, "doc": d, "family": "values-key",
+                          "ops": [dict(o) for o in ops]})
+            cases.append({"mode": "api", "reparse": True, "ast": None, "doc": d, "family": "values-key",
+                          "ops": [dict(o) for o in api_ops(ops)]})
+    return cases
+
+
+# ---------------------------------------------------------------------------------------------------------
+# exhaustive family "sizes": mappings and sequences of 1, 2, 3, 8, 64 and 1000 entries, scalars of 0, 1, 80 (the
+# width at which yaml.v3 folds lines), 4096 and 70000 bytes (present in the definition, and as the value set)
+SIZE_COUNTS = [1, 2, 3, 8, 64, 1000]
+SIZE_SCALARS = [0, 1, 80, 4096, 70000]
+
+
+def sized_text(n, quoted=False):
+    """n bytes of words separated by single spaces (so that the emitter has somewhere to fold)"""
+    if n == 0:
+        return '""'
+    words = []
+    total = 0
+    i = 0
+    while total < n:
+        w = "w%d" % i + "abcdefghij"[: (i * 7) % 9]
+        words.append(w)
+        total += len(w) + 1
+        i += 1
+    t = " ".join(words)[:n]
+    if t.endswith(" "):
+        t = t[:-1] + "x"
+    return '"%s"' % t if quoted else t
+
+
+def size_family(rng, thorough):
+    cases = []
+    for n in SIZE_COUNTS:
+        m = ("map", [("k%d" % i, "", ("s", str(i), "")) for i in range(n)], False)
+        q = ("seq", [("s", "e%d" % i, "") for i in range(n)], False)
+        dm = ("map", [("m", "", m), ("tail", "", ("s", "t", ""))], False)
+        dq = ("map", [("q", "", q), ("tail", "", ("s", "t", ""))], False)
+        mid = n // 2
+        mops = [[_S(["m", "k0"], "x")], [_S(["m", "k%d" % (n - 1)], "{a: 1}")], [_S(["m", "k%d" % mid], "y")],
+                [_S(["m", "new"], "v")], [_R(["m", "k0"])], [_R(["m", "k%d" % (n - 1)])], [_R(["m", "k%d" % mid])],
+                [_R(["m", "absent"])], [_R(["m"])], [_S(["m"], "5")],
+                [_R(["m", "k%d" % i]) for i in range(min(n, 3))] + [_S(["m", "k0"], "back")]]
+        qops = [[_S(["q", 0], "x")], [_S(["q", n - 1], "[1]")], [_S(["q", n], "app")], [_S(["q", n + 1], "gap")],
+                [_R(["q", 0])], [_R(["q", n - 1])], [_R(["q", mid])], [_R(["q", n])], [_R(["q"])],
+                [_R(["q", 0]) for _ in range(min(n, 3))] + [_S(["q", 0], "back")]]
+        if n == 1000 and not thorough:
+            # quick: the last / new / middle / absent entry and the whole collection
+            mops = [mops[1], mops[3], mops[6], mops[7], mops[8]]
+            qops = [qops[1], qops[2], qops[6], qops[7], qops[8]]
+        for mode in ("api", "cli"):
+            if n == 1000 and not thorough and mode == "api":
+                continue
+            for ops in mops:
+                cases.append(dict(mk(mode, wrap(mode, dm), [dict(o) for o in ops]), family="sizes:map%d" % n))
+            for ops in qops:
+                cases.append(dict(mk(mode, wrap(mode, dq), [dict(o) for o in ops]), family="sizes:seq%d" % n))
+    for n in SIZE_SCALARS:
+        for quoted in (False, True):
+            if n == 0 and not quoted:
+                continue
+            t = sized_text(n, quoted)
+            d = ("map", [("big", "", ("s", t, "")), ("z", "", ("s", "1", "keep"))], False)
+            small = ("map", [("big", "", ("s", "old", "lc")), ("z", "", ("s", "1", "keep"))], False)
+            huge = n >= 70000 and not thorough      # quick: a 70000-byte scalar travels ten times in every wire line
+            if huge and quoted:
+                continue
+            for mode in ("api", "cli"):
+                if huge and mode == "api":
+                    continue
+                for ops in ([_S(["z"], "2")], [_S(["big"], "7")], [_R(["big"])], [_S(["n"], t)], [_R(["z"])]):
+                    if huge and ops[0]["op"] == "rm":
+                        continue
+                    cases.append(dict(mk(mode, wrap(mode, d), [dict(o) for o in ops]), family="sizes:scalar%d" % n))
+                cases.append(dict(mk(mode, wrap(mode, small), [_S(["big"], t), _S(["z"], "2"), _R(["z"])]),
+                                  family="sizes:scalar%d" % n))
+                cases.append(dict(mk(mode, wrap(mode, small), [_S(["l", 0], t), _S(["l", 1], t), _R(["l", 0])]),
+                                  family="sizes:scalar%d" % n))
+            cases.append(dict(mk("cli", wrap("cli", small), [_S(["big"], t, secret=True), _S(["fresh"], t, secret=True)]),
+                              family="sizes:scalar%d" % n, must_open=True))
+    return cases
+
+
+# definitions that are not YAML: the handler reports `docerr`; the check counts them and fails on any OTHER docerr
+MALFORMED_DOCS = ["values: [1, 2\n", "values:\n\t- x\n", "values: {a: 1\n", "a: b: c\n", "values: \"open\n",
+                  "values:\n  a: 1\n b: 2\n", "values: *nope\n"]
+
+
+def malformed_doc_family():
+    return [{"mode": mode, "reparse": True, "ast": None, "doc": d, "family": "malformed-doc", "malformed_doc": True,
+             "ops": [_S(["a"], "1"), _R(["a"])]} for d in MALFORMED_DOCS for mode in ("api", "cli")]
 
 
 def prepare(c):
@@ -543,7 +816,7 @@ def wget(g):
         return "none"
     if g in ("missing", "panic"):
         return g
-    if g == "unparsable":
+    if g in ("unparsable", "failed"):
         return "panic"
     return wnode(g)
 
@@ -573,12 +846,32 @@ def line(c, o):
         steps.append("(%s %s %s %s %s)" % (wop, st, wnode(after), wget(s.get("get")), wget(s.get("cliget"))))
     if len(steps) < len(c["ops"]) and not steps:
         return None
-    return "(c15 %s %s %s (%s))" % (c["mode"], wnode(o["doc0"]), wnode(o.get("doc0rt") or o["doc0"]), " ".join(steps))
+    wmode = c["mode"] if c["mode"] != "api" or c.get("reparse", True) else "apimem"
+    return "(c15 %s %s %s (%s))" % (wmode, wnode(o["doc0"]), wnode(o.get("doc0rt") or o["doc0"]), " ".join(steps))
 
 
 # ---------------------------------------------------------------------------------------------------------
+def with_ops(c, ops):
+    """a case with other operations (keeps the text of hand-written definitions and the family marks)"""
+    c2 = {k: v for k, v in c.items() if k != "id"}
+    c2["ops"] = ops
+    return c2
+
+
 def shrink(c):
     ops = c["ops"]
+    if c.get("ast") is None and c.get("doc"):
+        # a definition given as text: drop operations, the secret flag, then single lines of the text
+        for i in range(len(ops)):
+            if len(ops) > 1:
+                yield with_ops(c, ops[:i] + ops[i + 1:])
+        lines = c["doc"].split("\n")
+        for i in range(len(lines)):
+            c2 = with_ops(c, ops)
+            c2["doc"] = "\n".join(lines[:i] + lines[i + 1:])
+            if c2["doc"].strip():
+                yield c2
+        return
     for i in range(len(ops)):
         if len(ops) > 1:
             yield mk(c["mode"], c.get("ast"), ops[:i] + ops[i + 1:], c.get("reparse", True))
@@ -631,14 +924,42 @@ SECRET_TEXTS = ['"line1\\nline2\\n"', '"tok\\r\\n"', '"\\n"', '"a\\n\\n"', '" le
                 "|\n  block\n  text\n", "|-\n  stripped\n", "|+\n  kept\n\n", '"né"', '"-"', '"0"', '"null"', '"{a: 1}"', "''"]
 
 
+# texts that do not denote a string: with --secret the command stores the command-line text itself
+SECRET_NONSTR = ["12", "-5", "0x1F", "1.5", "1e3", "true", "null", "~", " 12 ", "5 # trailing", "!!int \"7\"", "!custom t",
+                 "2001-12-14", "12345678901234567890", ".inf", "0o17", "!!str 5", "&anc x"]
+
+
 def extra_checks(ctx):
-    """`env set --secret <text>` then the backend's write-back (eval.EncryptSecrets) and opening with the matching decrypter:
-    the opened value at that path is exactly the text, flagged secret (observed by the handler, step field `opened`)"""
+    """(1) `env set --secret <text>` then the backend's write-back (eval.EncryptSecrets) and opening with the matching
+    decrypter: the opened value at that path is exactly the text (the value itself if it denotes a string, otherwise the
+    command-line text), flagged secret (observed by the handler, step field `opened`).  In the dedicated families
+    (`must_open`) every such step has to be observed: a skipped observation is a failure there.
+    (2) a definition that the handler reports as `docerr` (yaml.v3 refused the text): only the family of malformed
+    definitions may do that, and only if a second decode of the same text refuses it too."""
     out = []
     for c, o in zip(ctx["cases"], ctx["res"]["obs"]):
+        if o.get("docerr"):
+            if not c.get("malformed_doc") or o.get("generic_ok"):
+                out.append({"kind": "definition-refused-by-the-harness", "concrete": False,
+                            "case": {"mode": c.get("mode"), "doc": c.get("doc")},
+                            "what": "the handler reported docerr (%s) for a definition the generator meant to be valid YAML"
+                                    " (or that a second decode accepts): the case was not judged" % o.get("docerr_text")})
+                return out
+            continue
+        if c.get("malformed_doc"):
+            out.append({"kind": "definition-refused-by-the-harness", "concrete": False,
+                        "case": {"mode": c.get("mode"), "doc": c.get("doc")},
+                        "what": "a definition of the malformed family was accepted by yaml.v3: the family no longer tests "
+                                "what it is meant to"})
+            return out
         for i, st in enumerate(o.get("steps") or []):
             op = st.get("opened")
-            if op is not None and (op.startswith("differs") or op == "panic"):
+            if op is None:
+                continue
+            bad = op.startswith("differs") or op == "panic" or op == "nonscalar:panic"
+            if c.get("must_open") and op != "same" and not op.startswith("nonscalar:"):
+                bad = True
+            if bad:
                 out.append({"kind": "spec-violation-on-implementation", "concrete": True,
                             "case": {"mode": c.get("mode"), "doc": c.get("doc"), "ops": c["ops"][: i + 1]},
                             "what": "after `env set --secret` the stored definition, encrypted by eval.EncryptSecrets and opened "
@@ -647,29 +968,92 @@ def extra_checks(ctx):
     return out
 
 
+# the comparison of Corr.C15.same_full, again, only to COUNT the inputs the check treats as outside the domain
+def _eff_tag(tag, st):
+    return "!!str" if (st & 1) == 0 and (st & 30) != 0 else tag
+
+
+def _norm(n):
+    k, tag, st, v, hc, lc, fc, kids = n
+    if k == 8:
+        return (8, _eff_tag(tag, st), v, lc)
+    if k in (1, 2, 4):
+        return (k, lc, tuple(_norm(x) for x in kids))
+    return (k,)
+
+
+def _cm(t):
+    return [("C", l) for l in t.split("\n") if l]
+
+
+def _tokens(n):
+    k, tag, st, v, hc, lc, fc, kids = n
+    out = _cm(hc)
+    if k in (8, 16):
+        out.append(("K", v))
+    elif k == 4:
+        for i in range(0, len(kids) - 1, 2):
+            kn, vn = kids[i], kids[i + 1]
+            out += _cm(kn[4]) + [("K", kn[3])] + _tokens(vn) + _cm(kn[6])
+    elif k in (1, 2):
+        for x in kids:
+            out += _tokens(x)
+    return out + _cm(fc)
+
+
+def same_full(a, b):
+    return _norm(a) == _norm(b) and _tokens(a) == _tokens(b)
+
+
 def distribution(cases, r):
     d = {}
     for c, o in zip(cases, r["obs"]):
+        fam = (c.get("family") or "other").split(":")[0]
+        d["family:" + fam] = d.get("family:" + fam, 0) + 1
         if "steps" not in o:
             k = c["mode"] + ":harness-" + ("crash" if "crash" in o else "panic" if "panic" in o else "docerr")
             d[k] = d.get(k, 0) + 1
+            if o.get("docerr"):
+                k = "docerr:" + ("expected(malformed family)" if c.get("malformed_doc") and not o.get("generic_ok")
+                                 else "UNEXPECTED")
+                d[k] = d.get(k, 0) + 1
             continue
         for op, s in zip(c["ops"], o["steps"]):
             k = "%s:%s:%s" % (c["mode"], op["op"], s.get("status"))
             d[k] = d.get(k, 0) + 1
+            if s.get("opened") is not None:
+                # every outcome of the --secret observation, the skipped ones included (escape hatch: counted)
+                k = "secret_opened:" + s["opened"].split(":")[0] + \
+                    (":" + s["opened"].split(":", 1)[1] if s["opened"].startswith(("skip", "nonscalar")) else "")
+                d[k] = d.get(k, 0) + 1
+            elif op.get("secret") and op["op"] == "set" and c["mode"] == "cli":
+                k = "secret_opened:not-observed(command %s)" % s.get("status")
+                d[k] = d.get(k, 0) + 1
+            if s.get("cliget_skipped"):
+                d["cli_get_skipped:" + s["cliget_skipped"]] = d.get("cli_get_skipped:" + s["cliget_skipped"], 0) + 1
+            if s.get("cliget") == "failed":
+                d["cli_get_failed"] = d.get("cli_get_failed", 0) + 1
+        if len(o["steps"]) < len(c["ops"]):
+            d["steps_not_run_after_a_broken_step"] = d.get("steps_not_run_after_a_broken_step", 0) + \
+                len(c["ops"]) - len(o["steps"])
         d["cases:" + c["mode"]] = d.get("cases:" + c["mode"], 0) + 1
         d["ops_total"] = d.get("ops_total", 0) + len(o["steps"])
         if any("cliget" in s for s in o["steps"]):
             d["cli_get_commands"] = d.get("cli_get_commands", 0) + sum(1 for s in o["steps"] if "cliget" in s)
         if o.get("doc0rt") != o.get("doc0"):
+            # yaml.v3 reads its own output back with a comment on another node / another style
+            d["input_reattached_by_yaml_roundtrip"] = d.get("input_reattached_by_yaml_roundtrip", 0) + 1
+        if o.get("doc0rt") is not None and not same_full(o["doc0"], o["doc0rt"]):
+            # ... and so that also the text-level comparison differs: the case is outside the domain (not judged)
             d["input_not_roundtrip_stable"] = d.get("input_not_roundtrip_stable", 0) + 1
+            d["input_not_roundtrip_stable:" + fam] = d.get("input_not_roundtrip_stable:" + fam, 0) + 1
     return d
 
 
 def search(rng, info):
     """targeted search when an obligation or the correspondence is broken: the exhaustive family again plus
     quoted/literal scalars overwritten by non-strings and deletes through missing keys"""
-    cases = []
+    cases = values_key_family()
     for mode in ("api", "cli"):
         for d in SMALL_DOCS:
             for p in SMALL_PATHS:
